@@ -166,6 +166,77 @@ def line_reader_stage(work, ev, rep, tier, rng):
     return n
 
 
+def walk_stage(tools, work, ev, rep, tier):
+    """spec/DescribeWalk.tla: order and completeness of the listing over tree SHAPES (a directory as first / last / only entry of its parent,
+    followed or not by entries on the levels above).  Every emitted tree is packed, described and the listing fed to gensquashfs again."""
+    cfg = work + "/dw.cfg"
+    write_cfg(cfg, spec="Spec", constants={"Emit": False, "Walk": '"recursive"'}, invariants=["Complete", "ParentsFirst"], deadlock=False)
+    r = run_tlc("DescribeWalk", cfg, workers=4, timeout=600)
+    ev.tlc(r, "DescribeWalk")
+    if not r["ok"]:
+        print("MODEL-FAILURE: DescribeWalk violates %s" % r["violated"])
+        return None
+    for dev in ("climb_one", "children_first"):
+        write_cfg(cfg, spec="Spec", constants={"Emit": False, "Walk": '"%s"' % dev}, invariants=["Complete", "ParentsFirst"], deadlock=False)
+        r = run_tlc("DescribeWalk", cfg, workers=4, timeout=600)
+        ev.tlc(r, "dev DescribeWalk " + dev)
+        if not r["violated"]:
+            print("SELF-CHECK-FAILED: DescribeWalk deviation %s without counterexample" % dev)
+            return None
+    write_cfg(cfg, spec="Spec", constants={"Emit": True, "Walk": '"recursive"'}, invariants=["EmitOK"], deadlock=False)
+    r = run_tlc("DescribeWalk", cfg, workers=2, timeout=600)
+    cases = bpbind.parse_emitted(r["out"])
+    if len(cases) < 40:
+        print("SELF-CHECK-FAILED: DescribeWalk emitted %d trees" % len(cases))
+        return None
+    src = work + "/walk_src.bin"
+    open(src, "wb").write(b"walk\n")
+
+    def lines_of(nodes, prefix):
+        out = []
+        for n in nodes:
+            p = prefix + "/" + n["name"]
+            out.append(("dir %s 0755 0 0" % p) if n["isdir"] else ("file %s 0644 0 0 %s" % (p, src)))
+            out += lines_of(n["kids"], p)
+        return out
+
+    def do(i):
+        c = cases[i]
+        d = "%s/walk%d" % (work, i)
+        os.makedirs(d, exist_ok=True)
+        open(d + "/p.txt", "w").write("\n".join(lines_of(c["tree"], "")) + "\n")
+        rc, o, e = sh([tools + "/gensquashfs", "-q", "-f", "-F", d + "/p.txt", d + "/a.sqfs"], timeout=60)
+        if rc:
+            return i, "gensquashfs fails on the tree: %s" % e.decode(errors="replace")[-120:]
+        rc, o, e = sh([tools + "/rdsquashfs", "-d", d + "/a.sqfs"], timeout=60)
+        if rc:
+            return i, "rdsquashfs -d fails: %s" % e.decode(errors="replace")[-120:]
+        got = [l.split()[1] for l in o.decode().split("\n") if l.strip()]
+        want = ["/".join(p) for p in c["listing"]]
+        if sorted(got) != sorted(want):
+            return i, "listing has %d lines for %d entries: missing %s, extra %s" % (len(got), len(want), sorted(set(want) - set(got))[:4], sorted(set(got) - set(want))[:4])
+        for k, p in enumerate(got):
+            if "/" in p and p.rsplit("/", 1)[0] not in got[:k]:
+                return i, "entry %s is listed before its directory" % p
+        open(d + "/l.txt", "wb").write(o)
+        rc, o2, e = sh([tools + "/gensquashfs", "-q", "-f", "-D", os.path.dirname(src), "-F", d + "/l.txt", d + "/b.sqfs"], timeout=60)
+        if rc:
+            return i, "gensquashfs rejects the listing: %s" % e.decode(errors="replace")[-120:]
+        if sorted(sqfsimg.load(d + "/b.sqfs").tree(with_content=False)) != sorted(sqfsimg.load(d + "/a.sqfs").tree(with_content=False)):
+            return i, "the rebuilt image has other paths than the original"
+        shutil.rmtree(d, ignore_errors=True)
+        return i, None
+    n, done = 0, False
+    with ThreadPoolExecutor(16) as ex:
+        for i, bad in ex.map(do, range(len(cases))):
+            n += 1
+            if bad and not done:
+                done = True
+                rep.violation("describe-walk", "tree %s: %s" % (json.dumps(cases[i]["listing"]), bad), data={"tree": cases[i]["tree"]})
+    ev.set("describe_walk_trees", n)
+    return n
+
+
 def run(tier):
     ev = Evidence(PID, tier, "model_checking")
     rep = Reporter(PID, ev)
@@ -236,6 +307,11 @@ def run(tier):
                     continue
                 seen.add(k)
                 rep.violation(k, ("with --unpack-root: " if ur else "") + what, data={"unpack_root": ur, "item": repr(item)})
+    n_w = walk_stage(tools, work, ev, rep, tier)
+    if n_w is None:
+        ev.write()
+        return 2
+    replays += n_w
     n_lr = line_reader_stage(work, ev, rep, tier, rng)
     if n_lr is None:
         ev.write()
